@@ -97,6 +97,11 @@ func (rl *ReconciledLoader) SetRemoteOnline(online bool) {
 		return
 	}
 	if rl.open && !wasOpen {
+		// items still queued belong to an earlier response (the request was paused and
+		// resumed): the response to the request about to be sent starts again from the
+		// root, so they, and the last consumed item a retry would put back, would be
+		// verified against the wrong links
+		rl.remoteQueue.clear()
 		// if we're opening a remote request, we need to reverify against what we've loaded so far
 		rl.verifier = traversalrecord.NewVerifier(rl.traversalRecord)
 	}
